@@ -511,7 +511,14 @@ pub fn addze(
             lhs.clone(),
             Expression::zext(lhs.bits(), expr_scalar("carry", 1))?,
         )?;
-        block.assign(dst, src);
+        // XER[CA] <- carry out of rA + CA: the sum wrapped below rA
+        let sum = Scalar::temp(instruction.address, 32);
+        block.assign(sum.clone(), src);
+        block.assign(
+            scalar("carry", 1),
+            Expression::cmpltu(sum.clone().into(), lhs)?,
+        );
+        block.assign(dst, sum.into());
 
         block.index()
     };
@@ -1111,11 +1118,21 @@ pub fn srawi(
     // get operands
     let dst = get_register(detail.operands[0].reg())?.scalar();
     let lhs = get_register(detail.operands[1].reg())?.expression();
-    let rhs = expr_const(detail.operands[2].imm() as u64, 32);
+    let sh = detail.operands[2].imm() as u64 & 0x1f;
+    let rhs = expr_const(sh, 32);
 
     let block_index = {
         let block = control_flow_graph.new_block()?;
 
+        // XER[CA] <- rS is negative and a one bit is shifted out
+        let shifted_out = Expression::and(lhs.clone(), expr_const((1u64 << sh) - 1, 32))?;
+        block.assign(
+            scalar("carry", 1),
+            Expression::and(
+                Expression::cmplts(lhs.clone(), expr_const(0, 32))?,
+                Expression::cmpneq(shifted_out, expr_const(0, 32))?,
+            )?,
+        );
         block.assign(dst, Expression::sra(lhs, rhs)?);
 
         block.index()
